@@ -15,6 +15,7 @@ MOLS = {
     "H4": ([("H", (0, 0, 0)), ("H", (0, 0, 0.9)), ("H", (0, 0, 2.0)), ("H", (0, 0, 3.1))], 0, 0),
     "H4+": ([("H", (0, 0, 0)), ("H", (0, 0, 0.9)), ("H", (0, 0, 2.0)), ("H", (0, 0, 3.1))], 1, 1),
     "LiH": ([("Li", (0, 0, 0)), ("H", (0, 0, 1.6))], 0, 0),
+    "H4t": ([("H", (0, 0, 0)), ("H", (0, 0, 0.9)), ("H", (0, 0, 2.0)), ("H", (0, 0, 3.1))], 0, 2),
 }
 
 
@@ -32,7 +33,9 @@ def classical_structures(tier):
                 continue   # MP2 RDMs are not offered for open shells / frozen orbitals
             sts.append({"mol": mol, "frozen": fz, "solver": solver})
     sts.append({"mol": "H4+", "frozen": None, "solver": "CCSD", "uhf": True})
-    return sts if tier != "quick" else [s for i, s in enumerate(sts) if i % 2 == 0 or s["mol"] == "H2"]
+    sts.append({"mol": "H4t", "frozen": None, "solver": "CCSD"})          # ROHF triplet
+    sts.append({"mol": "H4t", "frozen": None, "solver": "FCI"})
+    return sts        # every tier: the whole list runs in seconds (an earlier every-second sampling for the quick tier dropped ROHF-CCSD, see seed C13-5)
 
 
 @contract("C13", "O1.classical_solvers.rdms", level="B", structures=classical_structures, native_samples=lambda st, rnd, tier: [{}],
